@@ -186,6 +186,9 @@ func failName(f *configapi.Failure) string {
 }
 
 func valText(pv *configapi.PathValue) string {
+	if pv == nil {
+		return "<nil>"
+	}
 	if pv.Deleted {
 		return DelValue
 	}
